@@ -68,6 +68,7 @@ class Scheduler:
         self.aborted = None
         self.crash_rate = 0       # percent per yield point, for crashable processes
         self.crashes_left = 0
+        self.crash_when = None    # callable(process, label) -> True: crash it here
         self.global_defaults = {}
         self.global_slots = []    # (object, attribute)
         self.next_pid = 100
@@ -258,6 +259,11 @@ class Scheduler:
             self.observer(p, label)
         if p.crashable and self.crashes_left > 0 and self.crash_rate and \
                 self.tape.chance("fault/crash", self.crash_rate):
+            self.crash(p, label)
+        if p.crashable and self.crashes_left > 0 and self.crash_when is not None \
+                and self.crash_when(p, label):
+            # a crash placed by the check right where in-flight state exists
+            self.world.count("fault/process-crashed-at-a-chosen-site")
             self.crash(p, label)
         if len(self.procs) > 1 and (
                 (hot and self.stall_rate and self.tape.chance("fault/stall", self.stall_rate))
